@@ -14,6 +14,7 @@ from vf import core
 from vf.core import TranslatorError
 
 OUT = "gen/CsvGen.v"
+OUT4 = "gen/Csv4Gen.v"          # round 4: the frequency -> span table of the exporter, the merge loop
 
 
 def _parse(rel: str) -> ast.Module:
@@ -163,5 +164,151 @@ def generate() -> str:
     return "\n".join(lines)
 
 
+# ---------------------------------------------------------------------- round 4 fragments
+
+def _body(fn) -> list:
+    """Statements of a function without its docstring."""
+    return [s for s in fn.body if not (isinstance(s, ast.Expr) and isinstance(s.value, ast.Constant))]
+
+
+def _keep_test(node, members: dict) -> str:
+    """The `if` test of the last comprehension of _resolve_frequency_span over (v, k) -> Coq over
+    (empty_span : bool) (f : Z).  Accepted: `v is [not] EmptySpan()`, `k is [not] Frequency.X`,
+    `k ==/!= Frequency.X`, and/or/not of these."""
+    if isinstance(node, ast.BoolOp):
+        op = " || " if isinstance(node.op, ast.Or) else " && "
+        return "(" + op.join(_keep_test(v, members) for v in node.values) + ")"
+    if isinstance(node, ast.UnaryOp) and isinstance(node.op, ast.Not):
+        return f"(negb {_keep_test(node.operand, members)})"
+    if isinstance(node, ast.Compare) and len(node.ops) == 1 and isinstance(node.left, ast.Name):
+        op, rhs = node.ops[0], node.comparators[0]
+        neg = isinstance(op, (ast.IsNot, ast.NotEq))
+        if not isinstance(op, (ast.Is, ast.IsNot, ast.Eq, ast.NotEq)):
+            raise TranslatorError(f"_resolve_frequency_span: comparison `{ast.unparse(node)}` not translatable")
+        if node.left.id == "v" and _norm(rhs) == "EmptySpan()" and isinstance(op, (ast.Is, ast.IsNot)):
+            return "(negb empty_span)" if neg else "empty_span"
+        if (node.left.id == "k" and isinstance(rhs, ast.Attribute) and ast.unparse(rhs.value) == "Frequency"
+                and rhs.attr in members):
+            t = f"(f =? {core.coq_z(members[rhs.attr])})"
+            return f"(negb {t})" if neg else t
+    raise TranslatorError(f"_resolve_frequency_span: test `{ast.unparse(node)}` not translatable")
+
+
+def _fspan_table(members: dict) -> str:
+    mod = _parse("irispie/databoxes/_exports.py")
+    fn = _find(mod.body, ast.FunctionDef, "_resolve_frequency_span")
+    body = _body(fn)
+    if len(body) != 5:
+        raise TranslatorError(f"_resolve_frequency_span: {len(body)} statements, expected 5 "
+                              "(span override, drop None, resolve `...`, expand/drop empty spans, return)")
+    _expect("_resolve_frequency_span (span override)", body[0],
+            "if span is None:\n    frequency_span = frequency_span if frequency_span is not None else _DEFAULT_FREQUENCY_SPAN\n"
+            "else:\n    span = tuple(span)\n    frequency = span[0].frequency\n    frequency_span = {frequency: span}")
+    _expect("_resolve_frequency_span (drop None)", body[1],
+            "frequency_span={Frequency(k):v for k,v in frequency_span.items() if v is not None}")
+    _expect("_resolve_frequency_span (resolve ...)", body[2],
+            "frequency_span={k:v if v is not ... else databox.get_span_by_frequency(k) for k,v in frequency_span.items()}")
+    st = body[3]
+    if not (isinstance(st, ast.Assign) and _norm(st.targets[0]) == "frequency_span" and isinstance(st.value, ast.DictComp)
+            and len(st.value.generators) == 1):
+        raise TranslatorError("_resolve_frequency_span: the expand/drop statement is not a dict comprehension")
+    dc = st.value
+    gen = dc.generators[0]
+    _expect("_resolve_frequency_span (expand: key)", dc.key, "k")
+    if _norm(dc.value) not in ("tuple((iforiinv))", "tuple(v)"):
+        raise TranslatorError(f"_resolve_frequency_span: expanded value `{ast.unparse(dc.value)}` is not tuple(v)")
+    _expect("_resolve_frequency_span (expand: iteration)", _norm(gen.target) + " in " + _norm(gen.iter), "(k,v) in frequency_span.items()")
+    if len(gen.ifs) > 1:
+        raise TranslatorError("_resolve_frequency_span: several `if` clauses")
+    keep = _keep_test(gen.ifs[0], members) if gen.ifs else "true"
+    _expect("_resolve_frequency_span (return)", body[4], "return frequency_span")
+    # Databox.get_span_by_frequency: which spans are the EmptySpan object
+    dmod = _parse("irispie/databoxes/main.py")
+    cls = _find(dmod.body, ast.ClassDef, "Databox")
+    g = _body(_find(cls.body, ast.FunctionDef, "get_span_by_frequency"))
+    if len(g) < 4:
+        raise TranslatorError("Databox.get_span_by_frequency: unexpected body")
+    _expect("get_span_by_frequency (unknown)", g[0], "if frequency == Frequency.UNKNOWN:\n    return EmptySpan()")
+    _expect("get_span_by_frequency (names)", g[1], "names = self.get_series_names_by_frequency(frequency)")
+    _expect("get_span_by_frequency (no names)", g[2], "if not names:\n    return EmptySpan()")
+    return keep
+
+
+_MERGE_BODIES = {
+    "_merge_stack": "if isinstance(value, _series.Series):\n    self[key] = self[key] | value\n    return\n"
+                    "if not isinstance(self[key], list):\n    self[key] = [self[key]]\n"
+                    "if not isinstance(value, list):\n    value = [value]\nself[key] += value",
+    "_merge_replace": "self[key] = value",
+    "_merge_discard": "pass",
+    "_merge_report": "stream.add(key)",
+}
+_MERGE_DISPATCH = {"stack": "_merge_stack", "hstack": "_merge_stack", "replace": "_merge_replace", "discard": "_merge_discard",
+                   "silent": "_merge_report", "warning": "_merge_report", "error": "_merge_report", "critical": "_merge_report"}
+
+
+def _merge_loop() -> list:
+    """databoxes/_merge.py: the loop of _merge (membership test against the CURRENT keys of self), the strategy
+    functions and the dispatch table, as modelled by model/Databox.v: merge_step / d_merge.  Fails closed."""
+    mod = _parse("irispie/databoxes/_merge.py")
+    fn = _find(mod.body, ast.FunctionDef, "_merge")
+    body = _body(fn)
+    loops = [s for s in body if isinstance(s, ast.For)]
+    if len(loops) != 1:
+        raise TranslatorError("_merge: expected exactly one loop over the merged databoxes")
+    _expect("_merge (loop)", loops[0],
+            "for t in other:\n    for key, value in t.items():\n        if key in self:\n"
+            "            merge_strategy_func(self, key, value, stream)\n        else:\n            self[key] = value")
+    i = body.index(loops[0])
+    _expect("_merge (single databox)", body[i - 1], "if hasattr(other, 'items'):\n    other = (other,)")
+    _expect("_merge (raise at the end)", body[i + 1], "stream._raise()")
+    if len(body) != i + 2:
+        raise TranslatorError("_merge: statements after stream._raise()")
+    for st in body[:i - 1]:
+        # nothing before the loop may read or copy the keys of self
+        if "self" in {n.id for n in ast.walk(st) if isinstance(n, ast.Name)}:
+            raise TranslatorError(f"_merge: `{ast.unparse(st)[:80]}` uses self before the loop")
+    for name, want in _MERGE_BODIES.items():
+        f = _find(mod.body, ast.FunctionDef, name)
+        _expect(name, "\n".join(ast.unparse(s) for s in _body(f)), want)
+    disp = None
+    for st in mod.body:
+        if isinstance(st, ast.Assign) and _norm(st.targets[0]) == "_MERGE_STRATEGY_DISPATCH":
+            disp = st.value
+    if not isinstance(disp, ast.Dict):
+        raise TranslatorError("_MERGE_STRATEGY_DISPATCH not found")
+    got = {ast.literal_eval(k): ast.unparse(v) for k, v in zip(disp.keys, disp.values)}
+    if got != _MERGE_DISPATCH:
+        raise TranslatorError(f"_MERGE_STRATEGY_DISPATCH changed: {got}")
+    bm = _find(mod.body, ast.FunctionDef, "_by_merging")
+    _expect("_by_merging", "\n".join(ast.unparse(s) for s in _body(bm)),
+            "self = klass()\nself.merge(databoxes, merge_strategy)\nreturn self")
+    return sorted(got)
+
+
+def generate4() -> str:
+    members = dict(_frequency_members())
+    keep = _fspan_table(members)
+    strategies = _merge_loop()
+    return "\n".join([
+        "(* GENERATED by translator/csvfmt.py (round 4) from databoxes/_exports.py: _resolve_frequency_span,",
+        "   databoxes/main.py: get_span_by_frequency, databoxes/_merge.py.  Do not edit. *)",
+        "From Coq Require Import String ZArith List Bool.",
+        "Import ListNotations.",
+        "Open Scope Z_scope.",
+        "",
+        "(* the `if` test of the last comprehension of _resolve_frequency_span: is the entry (frequency f, span v) kept,",
+        "   where empty_span says that v is the EmptySpan object (get_span_by_frequency: unknown frequency, or no series",
+        "   of that frequency) *)",
+        f"Definition fspan_keep (empty_span : bool) (f : Z) : bool := {keep}.",
+        "",
+        "(* keys of _MERGE_STRATEGY_DISPATCH (the loop, the strategy functions and the table were compared with the",
+        "   shapes modelled by model/Databox.v: merge_step) *)",
+        "Definition merge_strategies : list string := " + core.coq_list([core.coq_string(x) + "%string" for x in strategies]) + ".",
+        "",
+    ])
+
+
 def run() -> bool:
-    return core.write_if_changed(core.COQ / OUT, generate())
+    a = core.write_if_changed(core.COQ / OUT, generate())
+    b = core.write_if_changed(core.COQ / OUT4, generate4())
+    return a or b
